@@ -240,6 +240,7 @@ class Ctx:
             return 2
         replay_paths = []
         seen_sig = set()
+        per_part = {}
         for part, cell, v in self.viol:
             rec = {'property': self.pid, 'part': part, 'cell': cell, 'violation': v, 'tier': self.tier,
                    'replay_cmd': f'./check --replay <this file>'}
@@ -248,7 +249,8 @@ class Ctx:
             if h in seen_sig:
                 continue
             seen_sig.add(h)
-            if len(replay_paths) < 25:
+            per_part[part] = per_part.get(part, 0) + 1
+            if per_part[part] <= 8:
                 path = os.path.join(VERIF, 'replays', f'{self.pid}-{h}.json')
                 with open(path, 'w') as fh:
                     fh.write(blob)
